@@ -145,18 +145,20 @@ func enumPositions(v cty.Value, path string, allowDynamic bool, emit func(string
 		}
 		es := v.AsValueSlice()
 		if ty.IsSetType() {
-			// set inflation: one extra unknown member admitting an existing member (see WeakenOpts.InflateSets)
+			// set inflation: one extra member admitting an existing member (see WeakenOpts.InflateSets): the member
+			// replaced by an unknown as a whole, or a copy of it with one nested position replaced (a partly unknown
+			// structural member may turn out to be equal to the member it was copied from, so the abstract set stores
+			// more members than the concrete set has)
 			for i := range es {
 				if es[i].IsMarked() || !es[i].IsKnown() {
 					continue
 				}
-				for _, u := range AllAdmittingUnknowns(es[i], false) {
-					if u.IsKnown() {
-						continue
+				enumPositions(es[i], fmt.Sprintf("%s{+%d}", path, i), false, func(p string, by cty.Value, extra cty.Value) {
+					if extra.IsWhollyKnown() {
+						return
 					}
-					cp := append(append([]cty.Value(nil), es...), u)
-					emit(fmt.Sprintf("%s{+%d}", path, i), u, wrap(cty.SetVal(cp)))
-				}
+					emit(p, by, wrap(cty.SetVal(append(append([]cty.Value(nil), es...), extra))))
+				}, func(x cty.Value) cty.Value { return x })
 			}
 		}
 		for i := range es {
